@@ -152,6 +152,11 @@ func Execute(s *gen.Schema, doc *gen.Doc, opName string, vars map[string]interfa
 	return ExecuteEmu(s, doc, opName, vars, env, Emu{})
 }
 
+// RootID is the identity of the request's root value as the model names it (resolvers of
+// top-level fields must receive exactly this source). Harnesses that vary the root value
+// set it before calling Execute.
+var RootID = "$"
+
 // ExecuteEmu is Execute with defect emulations switched on.
 func ExecuteEmu(s *gen.Schema, doc *gen.Doc, opName string, vars map[string]interface{}, env Env, emu Emu) *ExecResult {
 	ex := &executor{s: s, doc: doc, env: env, vars: vars, res: &ExecResult{}, emu: emu}
@@ -182,7 +187,7 @@ func ExecuteEmu(s *gen.Schema, doc *gen.Doc, opName string, vars map[string]inte
 		ex.res.Request = "schema not configured for " + op.Kind
 		return ex.res
 	}
-	data, failed := ex.selectionSet(root, &Obj{Type: root, ID: "$"}, [][]*gen.Sel{op.Sel}, "")
+	data, failed := ex.selectionSet(root, &Obj{Type: root, ID: RootID}, [][]*gen.Sel{op.Sel}, "")
 	if failed {
 		ex.res.Data = nil
 		ex.absorb(0, 0)
